@@ -11,14 +11,20 @@ import math, itertools, json
 from fractions import Fraction
 from . import common
 from . import lib_thermo as L
+from . import lib_history_corr as H
 
-PROPS = ['PGA.Props.C05']
+PROPS = ['PGA.Props.C05', 'PGA.Props.CorrHistory']
 GEN = []
 OBLIGATIONS = ['PGA.Thermo.' + t for t in [
     'C05_ref_enthalpy', 'C05_ref_entropy', 'C05_enthalpy_integral', 'C05_entropy_integral',
     'C05_cp_at_data_points', 'C05_cp_extended', 'C05_gibbs', 'C05_order_independent',
     'C05_incomplete_delegates', 'C05_incomplete_consistent', 'C05_intCp_is_extension', 'C05_intCpT_is_extension',
-    'F5_breaks_reference_value', 'F6_breaks_order_independence', 'exIp_good', 'exIp_hits']]
+    'F5_breaks_reference_value', 'F6_breaks_order_independence', 'exIp_good', 'exIp_hits']] + [
+    'PGA.CorrHistory.' + t for t in [
+    'HIST_constructed_fresh', 'HIST_step_preserves', 'HIST_invariant', 'HIST_freshS_fresh', 'HIST_failed_update_unchanged',
+    'HIST_delCp_absent', 'HIST_failed_delCp_unchanged', 'HIST_setRange_reversed', 'HIST_never_raise', 'HIST_failed_op_state',
+    'HIST_eval_pure', 'HIST_eval_interleaving', 'HIST_history_independent', 'HIST_history_vs_constructor',
+    'HIST_estimate_independent', 'HIST_update_refines_C13', 'HIST_delCp_old_breaks', 'HIST_setRange_old_breaks']]
 RULE = ('cases = (correlation, evaluation temperature, property) triples. Correlations: tables of 1..16 points (equal/unequal '
         'spacing, shuffled supply order, random or constant Cp/R) x range present / absent / degenerate x the reference '
         'temperature in each of six placements (below the table, at its first point, between knots, at an interior knot, at '
@@ -636,6 +642,8 @@ def run_inner(ctx):
     for fname, rec in common.load_corpus('C05'):
         ctx.count('corpus')
         replay(ctx, rec)
+    # the correlation object as a state machine (Props/CorrHistory.lean): random and scripted histories of the public API
+    H.run(ctx, ctx.n(300, 4000), 12 if not ctx.thorough() else 30)
     batch = []
     grid(ctx, batch, acc, ctx.n(2, 24))
     constructor_cases(ctx, batch, ctx.n(120, 2000))
@@ -661,6 +669,8 @@ def replay(ctx, rec):
     if inp is None:
         return True
     before = len(ctx.violations)
+    if 'history' in inp:
+        return H.replay(ctx, inp)
     if inp.get('exact'):
         return replay_exact(ctx, inp)
     if 'library' in inp and 'group' in inp:
